@@ -63,6 +63,11 @@ fn gen(t: Tier, _seed: u64, emit: &mut dyn FnMut(Case)) {
                 emit(Case::Pair { cid, n, s1, s2 });
             }
         }
+        for n in huge_lengths(cid.bits()) {
+            for (s1, s2) in [(0, 0), (1, 0), (nof - 1, 1)] {
+                emit(Case::Pair { cid, n, s1, s2 });
+            }
+        }
         for n in ARRAY_NS {
             if n * cid.bits() <= 192 {
                 emit(Case::Array { cid, n });
@@ -83,7 +88,23 @@ fn variants<A: Sx>(x: &[A]) -> Vec<(&'static str, Vec<A>)> {
     let al = alphabet::<A>();
     let n = x.len();
     let mut v: Vec<(&'static str, Vec<A>)> = vec![("equal", x.to_vec())];
-    for i in 0..n {
+    // every position when short; for long sequences the ends, the middle and both sides of every 64th word boundary
+    let positions: Vec<usize> = if n <= 300 {
+        (0..n).collect()
+    } else {
+        let mut p = vec![0, 1, n / 2, n - 2, n - 1];
+        let spw = (64 / A::BITS as usize).max(1);
+        let mut w = spw;
+        while w < n {
+            p.extend([w - 1, w]);
+            w = w * 2 + spw;
+        }
+        p.retain(|x| *x < n);
+        p.sort();
+        p.dedup();
+        p
+    };
+    for i in positions {
         let k = al.iter().position(|a| *a == x[i]).unwrap_or(0);
         let others: Vec<A> = if n <= 4 { al.iter().copied().filter(|a| *a != x[i]).collect() } else { vec![al[(k + 1 + i % (al.len() - 1)) % al.len()]] };
         for o in others {
